@@ -22,11 +22,24 @@ from dtsim.engine_replica import canon_ir
 _ns = None
 
 
+_proc = None
+
+
 def setup():
-    global _ns
+    global _ns, _proc
     if _ns is None:
+        from dtsim import fs
+
         _ns = core.load_doctrans()
+        _proc = fs.ProcState()
     return _ns
+
+
+def _fresh():
+    """Return the doctrans package to its import-time state (caches, module-level containers): every history starts
+    in a process that has done nothing yet."""
+    if _proc is not None:
+        _proc.restore_baseline()
 
 
 # ------------------------------------------------------------------------- alphabet
@@ -98,7 +111,11 @@ def make_state(seed):
     kind = ch.weighted("kind", [("function", 4), ("method_in_class", 1), ("class", 3), ("argparse", 2)])
     with_ret = ch.chance("ret", 0.5)
     with_body = ch.chance("body", 0.6)
-    if with_ret:
+    if with_ret and desc["params"] and ch.chance("retexpr", 0.4):
+        # a compound default expression that names a parameter (emit.class_(emit_call=True) rewrites such names to self.<name>)
+        p0 = desc["params"][0]["name"]
+        desc["returns"] = {"typ": "int", "doc": "the scaled value", "default": {"code": "%s * 2" % p0}}
+    elif with_ret:
         desc["returns"] = {"typ": "Tuple[int, int]", "doc": "the resulting pair" + (". Defaults to (0, 1)" if ch.chance("retdoc", 0.5) else ""), "default": {"code": "(0, 1)"}}
     else:
         desc["returns"] = None
@@ -148,15 +165,34 @@ def explore(state, seq_len=3, sample4=0, only=None):
     ops = _ops()
     names = [n for n, _ in ops]
     S0, T0 = build(state)
-    ref = {}
-    for n, f in ops:
-        S, T = copy.deepcopy((S0, T0))
-        ref[n] = call(f, S, T)
+    # reference results: each call alone, on a pristine copy, in a forked child - a process that has done nothing else
+    from dtsim import fs
+
+    def refs():
+        out = {}
+        for n, f in ops:
+            _fresh()
+            S, T = copy.deepcopy((S0, T0))
+            out[n] = call(f, S, T)
+        return out
+
+    def ref_one(n, f):
+        def run():
+            _fresh()
+            S, T = copy.deepcopy((S0, T0))
+            return call(f, S, T)
+        return fs.run_forked(run)
+
+    ref = {n: ref_one(n, f) for n, f in ops}
     viols = {}
     stats = {"sequences": 0, "calls": 0, "ref_exceptions": sum(1 for v in ref.values() if v.startswith("EXC:"))}
 
     def rec(prefix, S, T, depth):
         for n, f in ops:
+            if depth == 0:
+                _fresh()
+            elif _proc is not None and depth >= 1:
+                pass  # (state built up by the prefix is part of the history)
             S2, T2 = copy.deepcopy((S, T))
             got = call(f, S2, T2)
             stats["calls"] += 1
@@ -172,6 +208,7 @@ def explore(state, seq_len=3, sample4=0, only=None):
                 rec(seq, S2, T2, depth + 1)
 
     if only is not None:
+        _fresh()
         S, T = copy.deepcopy((S0, T0))
         ok = True
         for n in only:
@@ -189,6 +226,7 @@ def explore(state, seq_len=3, sample4=0, only=None):
         ch = Chooser(state["seed"]).fork("len4")
         for i in range(sample4):
             seq = [ch.choice("s%d.%d" % (i, k), names) for k in range(4)]
+            _fresh()
             S, T = copy.deepcopy((S0, T0))
             stats["sequences"] += 1
             for k, n in enumerate(seq):
@@ -207,6 +245,7 @@ def minimal_culprit(ops, S0, T0, prefix, victim, ref):
     """Smallest sub-sequence of `prefix` (tried: each single op, then the whole prefix) after which `victim` diverges."""
     table = dict(ops)
     for n in prefix:
+        _fresh()
         S, T = copy.deepcopy((S0, T0))
         call(table[n], S, T)
         if call(table[victim], S, T) != ref[victim]:
